@@ -369,20 +369,18 @@ def gen_W(rng, solver, level):
     return spec
 
 
-XVALS = [1e308, -1e308, 1.7976931348623157e308, "inf", "-inf", 0.0, -0.0, 2.0**60, -(2.0**60), 2.0**60 + 256, 5e-324, 1e-300, 0.1 + 0.2, 0.3, 33, 33.0,
-         2**60, -(2**60) + 1]
+XVALS = [0.0, -0.0, 2.0**60, -(2.0**60), 2.0**60 + 256, 5e-324, 1e-300, 0.1 + 0.2, 0.3, 33, 33.0, 2**60, -(2**60) + 1, 1e15, -1e15 + 0.5]
+XOUTSIDE = [1e308, -1e308, 1.7976931348623157e308, "inf", "-inf", "nan", 1e300]  # outside the property (POLICY_X): observation only
 
 
 def gen_X(rng, solver):
     """float extremes as objective values: +-1e308, +-inf, +-0.0, denormals, 2^60 next to -2^60, ints next to equal floats; NaN"""
     spec = gen_spec(rng, solver)
     spec["shape"] = "X"
-    nan = rng.random() < 0.2
-    finite = rng.random() < 0.5
-    pool = [v for v in XVALS if not (finite and isinstance(v, str))] + (["nan", "nan"] if nan else [])
+    pool = XVALS + (XOUTSIDE * 2 if rng.random() < 0.25 else [])
     spec["obj"] = {"kind": rng.choice(["table", "abs", "quad"]), "c": [rng.choice([0.0, 0.5, -1.25]) for _ in range(3)], "s": rng.choice([1, 3]),
                    "table": [rng.randint(0, 6) for _ in range(5)], "res": rng.choice([1, 2]), "xvals": [rng.choice(pool) for _ in range(rng.choice([3, 5, 8]))]}
-    spec["may_raise"] = any(isinstance(v, str) for v in spec["obj"]["xvals"])
+    spec["observe_only"] = any(isinstance(v, str) or abs(v) >= 1e300 for v in spec["obj"]["xvals"])
     return spec
 
 
@@ -458,6 +456,9 @@ def run_shapes(ctx: Ctx):
         ctx.count("shapes_magnitude", "float@2^60" if spec["obj"].get("float") else ("small" if not spec["obj"].get("offset") else "huge-int"))
         if r["a"]["status"] == "ok" and len(r["a"]["log"]) >= 3:
             ctx.nontriv(json.dumps(spec, sort_keys=True))
+        if spec.get("observe_only"):  # NaN / inf / >= 1e300: outside the property - run, counted, never judged
+            ctx.count("observation_only", f"{spec['solver']}:{r['a']['status']}" + (":oracle-would-object" if r["bad"] else ""))
+            continue
         if r["bad"]:
             ctx.violation(f"{spec['solver']} [shapes {spec.get('shape', 'M')}]: {r['bad']}",
                           {"case": spec, "impl": {"primary": r["a"].get("res") or r["a"].get("error"), "mirror": r["b"].get("res") or r["b"].get("error")}})
@@ -474,6 +475,7 @@ def run_shapes(ctx: Ctx):
         if not any(v["replay"].get("case") == spec for v in ctx.violations):
             ctx.violation(f"{spec['solver']} [shapes]: Coq spec checker obs_spec_check rejects the implementation's result {o['res']} against the recorded log",
                           {"case": spec, "impl": o["res"]})
+    ctx.notes.append("C19/shapes: NaN, +-inf and |v| >= 1e300 as objective values are outside the property: observation only (histogram observation_only)")
     ctx.notes.append("C19/shapes: part-B solvers on exact integer objectives of magnitude 2^31..2^64 are judged by the recorded-log oracle and the Coq "
                      "spec checker only (no machine correspondence at these magnitudes beyond harness/props/C19_b.py's own cases)")
 
